@@ -49,6 +49,8 @@ def classify(res, prog, ref):
         res.label("fault:hook")
     if prog.get("cleanups"):
         res.label("fault:cleanup" + (":raising" if any(c["raises"] for c in prog["cleanups"]) else ":ok"))
+        if prog.get("cleanup_handler") and any(c["raises"] for c in prog["cleanups"]):
+            res.label("fault:cleanup:raising:own-error-handler")
     if ref.not_selected:
         res.label("has-deselected")
     if ref.untouched:
@@ -404,7 +406,8 @@ def required_labels(tier):
             "meta:add_pass", "meta:add_deselected", "meta:permute", "cli", "runner-route", "flag:wip_flag", "abort:step",
             "abort:hook-abort:before_scenario", "abort:hook-interrupt:before_scenario", "autoretry",
             "autoretry:outline-as-a-whole", "autoretry:verdict:failed", "autoretry:verdict:passed"] + \
-           ["outcome:" + o for o in OUTCOMES] + ["outcome:typed", "one-text-several-step-types", "step-reconfigures-logging"]
+           ["outcome:" + o for o in OUTCOMES] + ["outcome:typed", "one-text-several-step-types", "step-reconfigures-logging",
+                                                 "fault:cleanup:raising:own-error-handler"]
 
 
 KNOWN_PREDICATES = {}
@@ -412,3 +415,4 @@ KNOWN_PREDICATES = {}
 
 RULE = RULE + " " + ('Further sub-checks: run-time exclusion (element.skip() in a before-hook), hooks that read element statuses, step texts bound per step type (passing @given / failing @then / no @when definition of one text), and behave.contrib.scenario_autoretry (outlines patched as a whole or row by row): the verdict is that of the final attempts.')
 RULE = RULE + " " + ('Passing steps may reconfigure logging for good (root handlers cleared, basicConfig(force=True), dictConfig), as an application under test does.')
+RULE = RULE + " " + ('Half of the programs with cleanups install their own handler for cleanup errors in before_all (returning True / None, or the built-in ignore handler): a raising cleanup still fails the run.')
